@@ -18,9 +18,11 @@
    * A delimiter is a non-empty string without CR or LF (`delim_ok`); anything else cannot be
      "alone on a line" and the spec answers None.
 
-   Also here: the decidable classes of inputs on which the unchanged library is KNOWN to deviate from
-   this spec (`fm_class`), used by the check to classify a disagreement — a disagreement outside
-   every class is a new violation.  *)
+   Also here: the decidable classes of inputs on which the library deviated from this spec BEFORE the
+   repair `fix: front matter is cut by lines` (`fm_class`; known_findings F11, C20-a, F9, F10, all fixed).
+   Since the repair the splitter is proved equal to this spec (Props/C20.v C20_split_vs_spec); the classes
+   excuse nothing, the check uses them only to label its coverage and the Examples of Props/C20.v to show
+   that each old witness lies in its class.  *)
 From Coq Require Import List NArith Bool.
 From V Require Import Base.Bytes.
 Import ListNotations.
@@ -101,8 +103,8 @@ Definition spec_split_doc : bytes -> bytes -> option (bytes * bytes) := spec_spl
 Definition spec_split : bytes -> bytes -> option (bytes * bytes) := spec_split_gen true.
 
 (* ------------------------------------------------------------------------------------------------
-   Known deviation classes (DESIGN §8 F9, F10, F11, F25).  All are stated on the lines of the input
-   and on the spec's own answer, never on the implementation's. *)
+   The classes of the repaired deviations (DESIGN §8 F9, F10, F11, F25).  All are stated on the lines of
+   the input and on the spec's own answer, never on the implementation's. *)
 
 Fixpoint has_lone_cr (s : bytes) : bool :=
   match s with
